@@ -301,15 +301,16 @@ def conc_case(readers, asserters, iters):
     return {"dss": DSS, "ops": [], "conc": {"readers": readers, "asserters": asserters, "iters": iters}}
 
 
-def burst_case(k, rounds):
-    return {"dss": DSS, "ops": [], "conc": {"readers": 0, "asserters": 0, "iters": 0, "k": k, "rounds": rounds}}
+def burst_case(k, rounds, resolvers=0, grow=0):
+    return {"dss": DSS, "ops": [], "conc": {"readers": 0, "asserters": 0, "iters": 0, "k": k, "rounds": rounds,
+                                            "resolvers": resolvers, "grow": grow}}
 
 
 def gen(rng, tier):
     out = []
     if tier == "quick":
-        out.append(burst_case(8, 24))
-        out.append(burst_case(16, 12))
+        out.append(burst_case(8, 24, 6, 1500))
+        out.append(burst_case(16, 12, 8, 800))
         for i in range(72):
             out.append(rand_case(rng, rng.range(8, 22), ["mix", "ns", "ids"][i % 3]))
         return out
@@ -320,7 +321,7 @@ def gen(rng, tier):
     for i in range(240):
         out.append(rand_case(rng, rng.range(8, 40), ["mix", "ns", "ids", "ids"][i % 4]))
     out.append(big_case(1100))
-    out.append(burst_case(8, 60))
+    out.append(burst_case(8, 60, 6, 3000))
     out.append(burst_case(16, 30))
     out.append(burst_case(4, 60))
     out.append(conc_case(4, 4, 300))
@@ -341,7 +342,7 @@ def nsnum(p):
 
 # "crashed" = the write reached its hook point and the process died there: the model reports HOBatch OcOk for it
 OUTCOME = {"ok": "OcOk", "empty": "OcErrEmpty", "discarded": "OcErrDiscarded", "panic": "OcPanic", "crashed": "OcOk"}
-CONC = {"": 0, "survived": 1, "died-map": 2, "died-other": 3, "hang": 4, "inconsistent": 5}
+CONC = {"": 0, "survived": 1, "died-map": 2, "died-other": 3, "hang": 4, "inconsistent": 5, "died-map-burst": 6}
 
 
 def ss(pairs):
